@@ -1368,6 +1368,9 @@ class Console:
                     display(self._buffer)
                     del self._buffer[:]
                 else:
+                    if self.record:
+                        with self._record_buffer_lock:
+                            self._record_buffer.extend(self._buffer[:])
                     text = self._render_buffer(self._buffer[:])
                     del self._buffer[:]
                     if text:
@@ -1390,9 +1393,6 @@ class Console:
         append = output.append
         color_system = self._color_system
         legacy_windows = self.legacy_windows
-        if self.record:
-            with self._record_buffer_lock:
-                self._record_buffer.extend(buffer)
         not_terminal = not self.is_terminal
         if self.no_color and color_system:
             buffer = Segment.remove_color(buffer)
